@@ -415,6 +415,39 @@ def run(prog, ctx):
             res.undecided += 1      # entries cleared by something other than fill()
         else:
             res.violate("C04.T", "C04.T|reset", "reset does not restore %s%s" % (sorted(missing), "" if fills else " and does not clear the entries"), rs.id)
+    # ---------------- C04.P compact(): the compact form carries the table's theta and emptiness (theta is MAX only for a sketch
+    # that never saw data), by value over (theta, is_empty)
+    cp = C.pub_fn(prog, "theta::sketch::ThetaSketch", "compact")
+    n_p = 0
+    if cp is not None:
+        sc = Sym(prog, cp)
+        aggs = {}
+        for (ff, b, kind, place, rv, span, adt, fld) in sym.field_stores(prog, adt="theta::sketch::CompactThetaSketch", fns=[cp]):
+            if kind == "agg" and rv is not None:
+                aggs.setdefault(b, {})[fld] = sc.at(b, 0).rvalue(rv)
+        MAXT = 9223372036854775807
+        for b, flds in sorted(aggs.items()):
+            th = [v for k_, v in flds.items() if "theta" in k_]
+            em = [v for k_, v in flds.items() if "empty" in k_]
+            if len(th) != 1 or len(em) != 1:
+                continue
+            n_p += 1
+            verdict, wit = None, ""
+            try:
+                verdict = True
+                for t in (1, MAXT // 3, MAXT - 1, MAXT):
+                    for is_e in (0, 1):
+                        for n in (0, 1, 7):
+                            env = {"@prog": prog, "self.table.theta": t, "self.table.is_empty": is_e, "self.table.num_entries": n,
+                                   "@fn:collect": lambda *a, _n=n: [0] * _n, "@fn:iter": lambda *a, _n=n: [0] * _n, "@lenient": ("collect", "iter")}
+                            gt, ge = formula.evaluate(th[0], env), bool(formula.evaluate(em[0], env))
+                            wt = MAXT if is_e else t
+                            if gt != wt or ge != bool(is_e):
+                                verdict, wit = False, "table theta %d, is_empty %d, %d entries: compact theta %r empty %r, expected theta %d empty %s" % (t, is_e, n, gt, ge, wt, bool(is_e))
+            except (formula.Uneval, TypeError):
+                verdict = None
+            res.tri(verdict, "C04.P", "C04.P|compact", "ThetaSketch::compact: %s" % wit, cp.id)
+    res.rule("C04.P", n_p, 1, "compact(): theta and emptiness of the compact form")
     res.explanation = ("structural rules over the %d functions reachable from ThetaSketch::{update,trim,reset,compact} and the builder: screen formula, "
                        "theta writers, insert/count pairing, capacity check post-domination and thresholds, probe geometry at call sites, replay loops, "
                        "trim/reset" % len(reach))
